@@ -853,7 +853,12 @@ class Engine:
             if isinstance(p, Ptr):
                 self.on_ptr_load(st, f, inst, p, sp)
         else:
-            regs[inst.id] = TOP
+            v = self.on_int_load(st, f, inst, p) if isinstance(p, Ptr) else None
+            regs[inst.id] = v if v is not None else TOP
+        return None
+
+    def on_int_load(self, st, f, inst, p):
+        """a non-pointer value is loaded from untracked memory at p: a subclass may return an abstract value for it"""
         return None
 
     def atomic_load_other(self, st, f, inst, p):
